@@ -8,14 +8,23 @@ package job
 @*/
 /*@ immutable types/job.subscription.parent types/job.subscription.outch types/job.subscription.cache
   types/job.cache.parent types/job.controller.parent types/job.controller.cache types/job.filterController.filterParent
-  types/job.filterSubscription.filterParent
+  types/job.filterSubscription.filterParent types/job.filterController.controller
 @*/
 /*@ nonblocking-send types/job.subscription.outch
 @*/
 
 /*@ theory jobtyped
 ;; theory lists wiring
-;; uses types/job.event
+;; uses types/job.event types/job.controller
+(declare-fun |F!types/job.filterController!controller| (V) |S!types/job.controller|)
+(assert (forall ((c V)) (! (=> (= (dyntype c) |ty!*types/job.filterController|)
+                               (not (= (|types/job.controller.parent| (|F!types/job.filterController!controller| c)) vnil)))
+                          :pattern ((|F!types/job.filterController!controller| c)))))
+(declare-fun |F!types/job.controller!parent| (V) V)
+; object invariant of the typed controllers (they are only built by newController / newFilterController,
+; whose precondition is a non-nil parent; the field is immutable)
+(assert (forall ((c V)) (! (=> (or (= (dyntype c) |ty!*types/job.controller|) (= (dyntype c) |ty!*types/job.filterController|))
+                               (not (= (|F!types/job.controller!parent| c) vnil))) :pattern ((|F!types/job.controller!parent| c)))))
 (define-fun isT ((o V)) Bool (and (not (= o vnil)) (= (dyntype o) |ty!*batch/v1.Job|)))
 (declare-fun tevt-type (V) Str)
 (declare-fun tevt-res (V) V)
@@ -239,6 +248,23 @@ package job
   at call(Refilter) assert [refilters-the-untyped-subscription-with-the-given-filter] (and (= $recv {s.filterParent}) (= $0 {f}))
 @*/
 
+/*@ func types/job.NewMonitor
+  props C20 C16
+  theory jobtyped
+  allow panic
+  note NewMonitor panics for a Publisher that is not one of this package's controllers (documented in the code)
+  requires (and (not (= {publisher} vnil)) (not (= {handler} vnil)))
+  at call(OnInitialize) assert [initialize-adapter] (= (closureOf $0) "types/job.NewMonitor$1")
+  at call(OnCreate) assert [create-adapter-calls-oncreate] (= (closureOf $0) "types/job.NewMonitor$2")
+  at call(OnUpdate) assert [update-adapter-calls-onupdate] (= (closureOf $0) "types/job.NewMonitor$3")
+  at call(OnDelete) assert [delete-adapter-calls-ondelete] (= (closureOf $0) "types/job.NewMonitor$4")
+  ensures (=> (= result1 vnil) (not (= result0 vnil)))
+@*/
+/*@ func types/job.BuildHandler
+  props C20
+  fresh result
+  ensures (not (= result vnil))
+@*/
 /*@ func types/job.NewMonitor$1
   props C20 C16
   theory jobtyped
